@@ -1,9 +1,52 @@
+import Drx.Dir
+import Drx.Idx
 import Drx.Drv.Util
 namespace Drx.Drv.Dir
-open Drx Drx.Drv
+open Drx Drx.Drv Drx.Dir
 
-/-- commands of the `dir` family (stub: nothing implemented yet) -/
+/-! Stub decoders: every sub-decoder is replaced (identically in harness/c05.py, by monkeypatching the names
+    dir.py imported) by a function that returns a token of its inputs; key/cas/lctx are the real models. -/
+
+def tokS (tag : String) (b : Bytes) : J := J.s (tag ++ ":" ++ hexOfBytes b)
+
+def s16 (d : Bytes) (off : Nat) : R Int := getS .be 2 d off
+
+def stubCast (d : Bytes) : R CastData :=
+  match d with
+  | [] => .error .value
+  | b0 :: _ =>
+    if b0.toNat = 1 then do
+      let p ← s16 d 1
+      .ok [("tok", .tok (tokS "cast" d)), ("palette", .intStr p)]
+    else .ok [("tok", .tok (tokS "cast" d))]
+
+def stubScript (d : Bytes) (names : J) : R ScriptOut := do
+  let n ← s16 d 0
+  let c ← s16 d 2
+  let t := "(" ++ hexOfBytes d ++ "|" ++ names.render ++ ")"
+  .ok ⟨n, c, ("L" ++ t).toList, ("J" ++ t).toList⟩
+
+def stubs : Decoders where
+  key := fun o d => (Idx.parseKey o d).map fun kd => kd.map fun (k, l) => (k, l.map fun r => ⟨r.chunkID, r.index⟩)
+  vwcf := fun d => .ok (.obj [("vwcf", J.hex d)])
+  cas := Idx.parseCas
+  lctx := fun d => (Idx.parseLctx d).map fun l => l.map (·.index)
+  lnam := fun d => .ok (.arr [tokS "lnam" d])
+  script := stubScript
+  vwlb := fun d => .ok (.arr [tokS "vwlb" d])
+  score := fun d => .ok (.obj [("score", J.hex d)])
+  fmap := fun d => .ok (.arr [.obj [("fmap", J.hex d)]])
+  cast := stubCast
+  stxt := fun d fm => .ok (tokS "T" d, .arr [fm, J.hex d])
+  snd := fun d => .ok (.obj [("snd", J.hex d)])
+  clut := fun d => .ok (tokS "clut" d)
+  bitd := fun cd clut d => .ok (.obj [("bmp", J.hex d), ("clut", match clut with | some v => v.toJ | none => J.s ""), ("cast", castJ cd)])
+
+/-- commands of the `dir` family (see harness/c05.py) -/
 def run : List String → Option String
+  | ["stub", o, off, h] => do
+    let o ← parseOrder o; let off ← parseNat off; let b ← bytesOfHex h
+    some (rJ DirectorFile.toJ (parseDir stubs o off b))
   | _ => none
 
 end Drx.Drv.Dir
